@@ -175,6 +175,9 @@ impl Property for C19 {
     fn id(&self) -> &'static str {
         "C19"
     }
+    fn regimes(&self) -> &'static str {
+        crate::gen::REGIMES_FAMILY
+    }
     fn rule(&self) -> String {
         format!("proptest generates configurations = (instance of the model families with at most two decays, truth (alpha*, c*), N in 12..40 (a quarter of the configurations with only nu = 2..5 degrees of freedom), heteroscedastic Gaussian noise profile with sigma ratio <= 10 at relative level 3e-4..3e-3 and weights k/sigma_i (k = 1 or generated), or constant sigma with uniform weights k/sigma or without weights, in natural units of x or (15 %) in units 1e±3, 1e±6, 1e±9, p in {{0.5, 0.683, 0.8, 0.9, 0.95, 0.99}}); each configuration is fitted for R noise realisations expanded deterministically from the generated seed. Oracle per configuration and per statistic (each sample's band, each c_j, each alpha_k): |hits/R - p| <= {Z}·sqrt(p(1-p)/R) + {NONLIN}; with weights exactly 1/sigma_i: |mean(reduced chi2) - 1| <= {Z}·sqrt(2/(nu R)) + {NONLIN}; pooled over the run: |sum(hits - R p)| / sqrt(sum R p (1-p)) <= {Z} after a 0.4% allowance. Non-trivial: configurations in the small-noise premise (relative standard deviation of every nonlinear parameter <= 3%) in which >= 99% of the fits succeed; others are reported as not evaluable")
     }
